@@ -747,4 +747,110 @@ theorem deleteObjects_spec {U : Path → Prop} (hU : Universe U) (names : List N
       | true => exact eraseAll_keys _ _ q (by simpa using hq)
 end commands
 
+/-! ## interleavings of the upload tasks (map level; the scheduler is `runSchedule` of `ObjCmd.lean`) -/
+
+/-- what every reachable configuration satisfies, relative to the map `m0` the command started from -/
+structure Good (skip : Bool) (m0 : Spec) (items : List (Name × Bytes)) (m : Spec) (ts : List Task) : Prop where
+  names : ts.map (·.name) = items.map (·.1)
+  mem : ∀ t ∈ ts, (t.name, t.data) ∈ items
+  other : ∀ n, n ∉ items.map (·.1) → m n = m0 n
+  phase : ∀ t ∈ ts, match t.phase with
+    | .todo => m t.name = m0 t.name
+    | .pending => skip = true ∧ (m0 t.name).isSome = false ∧ m t.name = m0 t.name
+    | .done => m t.name = if skip = true ∧ (m0 t.name).isSome = true then m0 t.name else some t.data
+
+theorem good_init (skip : Bool) (m0 : Spec) (items : List (Name × Bytes)) : Good skip m0 items m0 (initTasks items) := by
+  refine ⟨by simp [initTasks], ?_, fun _ _ => rfl, ?_⟩
+  · intro t ht
+    obtain ⟨e, he, rfl⟩ := List.mem_map.mp ht
+    exact he
+  · intro t ht
+    obtain ⟨e, he, rfl⟩ := List.mem_map.mp ht
+    rfl
+
+theorem advance_name (skip : Bool) (m : Spec) (t : Task) : (advance skip m t).2.name = t.name ∧ (advance skip m t).2.data = t.data := by
+  unfold advance
+  split
+  · split
+    · split <;> exact ⟨rfl, rfl⟩
+    · exact ⟨rfl, rfl⟩
+  · exact ⟨rfl, rfl⟩
+  · exact ⟨rfl, rfl⟩
+
+/-- a call of the task for `t.name` changes the map at most at `t.name` -/
+theorem advance_other (skip : Bool) (m : Spec) (t : Task) (k : Name) (hk : k ≠ t.name) : (advance skip m t).1 k = m k := by
+  unfold advance
+  split
+  · split
+    · split <;> rfl
+    · simp [Spec.put, hk]
+  · simp [Spec.put, hk]
+  · rfl
+
+theorem good_step (skip : Bool) (m0 : Spec) (items : List (Name × Bytes)) (m : Spec) (ts : List Task) (n : Name)
+    (h : Good skip m0 items m ts) : Good skip m0 items (stepTask skip m ts n).1 (stepTask skip m ts n).2 := by
+  unfold stepTask
+  cases hf : ts.find? (fun t => decide (t.name = n)) with
+  | none => exact h
+  | some t =>
+    have ht : t ∈ ts := List.mem_of_find?_eq_some hf
+    have htn : t.name = n := by simpa using List.find?_some hf
+    obtain ⟨an, ad⟩ := advance_name skip m t
+    simp only
+    refine ⟨?_, ?_, ?_, ?_⟩
+    · rw [← h.names, List.map_map]
+      apply List.map_congr_left
+      intro u _
+      by_cases hu : u.name = n
+      · simp [hu, an, htn]
+      · simp [hu]
+    · intro u hu
+      obtain ⟨v, hv, rfl⟩ := List.mem_map.mp hu
+      by_cases hvn : v.name = n
+      · simp only [hvn, if_true, an, ad]; exact h.mem t ht
+      · simp only [hvn, if_false]; exact h.mem v hv
+    · intro k hk
+      rw [advance_other skip m t k, h.other k hk]
+      intro e
+      apply hk
+      rw [e, ← h.names]
+      exact List.mem_map_of_mem ht
+    · intro u hu
+      obtain ⟨v, hv, rfl⟩ := List.mem_map.mp hu
+      by_cases hvn : v.name = n
+      · simp only [hvn, if_true]
+        have hp := h.phase t ht
+        unfold advance
+        cases hph : t.phase with
+        | todo =>
+          rw [hph] at hp
+          cases skip with
+          | true =>
+            simp only [if_true]
+            cases hs : (m t.name).isSome with
+            | true =>
+              have : (m0 t.name).isSome = true := by rw [← hp]; exact hs
+              simp [hp, this]
+            | false =>
+              have : (m0 t.name).isSome = false := by rw [← hp]; exact hs
+              simp only [Bool.false_eq_true, if_false]
+              exact ⟨trivial, this, hp⟩
+          | false => simp [Spec.put]
+        | pending =>
+          rw [hph] at hp
+          obtain ⟨_, hb, _⟩ := hp
+          simp [Spec.put, hb]
+        | done => rw [hph] at hp; simp only [hph]; exact hp
+      · simp only [hvn, if_false]
+        have hp := h.phase v hv
+        have hne : v.name ≠ t.name := fun e => hvn (e.trans htn)
+        rw [advance_other skip m t v.name hne]
+        exact hp
+
+theorem good_run (skip : Bool) (m0 : Spec) (items : List (Name × Bytes)) (sched : List Name) (m : Spec) (ts : List Task)
+    (h : Good skip m0 items m ts) : Good skip m0 items (runSchedule skip m ts sched).1 (runSchedule skip m ts sched).2 := by
+  induction sched generalizing m ts with
+  | nil => exact h
+  | cons n sched ih => exact ih _ _ (good_step skip m0 items m ts n h)
+
 end Replicat.ObjCmd
